@@ -18,11 +18,14 @@ GenSlotTypeBBD  == <<"Base", "Base", "Derived">>
 GenSlotTypeBDD  == <<"Base", "Derived", "Derived">>
 GenSlotTypeBBDD == <<"Base", "Base", "Derived", "Derived">>
 GenSlotTypeBB   == <<"Base", "Base">>
+GenSlotTypeCBD  == <<"CBase", "Base", "Derived">>
+GenLayout       == IOEnv.RC_LAYOUT
 GenObjTypeDD    == <<"Derived", "Derived">>      \* chain universe: both objects own a member handle
 MembersNone     == {}
 MembersDerived  == {"Derived"}
 GenPolicy   == [mc |-> IOEnv.RC_MC, ma |-> IOEnv.RC_MA, sm |-> IOEnv.RC_SM, cmc |-> IOEnv.RC_CMC, cma |-> IOEnv.RC_CMA]
 ASSUME \A k \in DOMAIN GenPolicy : GenPolicy[k] \in Outs(k)
+ASSUME GenLayout \in {"single", "multi", "virtual"}
 
 Abs  == [st |-> st, count |-> count, creator |-> creator, explicit |-> explicit, h |-> h, m |-> m]
 AbsN == [st |-> st', count |-> count', creator |-> creator', explicit |-> explicit', h |-> h', m |-> m']
